@@ -208,6 +208,8 @@ type normalizer struct {
 	edits   map[string][]textEdit
 	notes   []string
 	seq     int
+	// recvLast: convertKind turns a method into a function that takes the receiver last
+	recvLast bool
 }
 
 func (n *normalizer) src(filename string) []byte {
@@ -375,6 +377,7 @@ func (n *normalizer) renameBack() {
 		// a pinned function that became a method of its first parameter's type, or a
 		// pinned method that became a function taking the receiver first
 		decls := declaredFuncs(p)
+		trailing := map[*types.Func]bool{}
 		for _, mk := range missing {
 			parts := strings.Split(mk, "|")
 			if len(claimed) > 0 {
@@ -401,6 +404,12 @@ func (n *normalizer) renameBack() {
 					// pinned function, newcomer method: recv + params == pinned params
 					if flatKey(sig) == inv.Funcs[mk] {
 						cands = append(cands, fn)
+					} else if fn.Name() == parts[2] && strings.TrimPrefix(sigKey(sig), "*") == inv.Funcs[mk] {
+						// ... or the function was hung on a type it did not take before (same name, same
+						// parameters, a receiver in addition): analysed as the function with the receiver
+						// as an extra last parameter, so that the pinned parameters keep their positions
+						cands = append(cands, fn)
+						trailing[fn] = true
 					}
 				case parts[1] != "" && sig.Recv() == nil && sig.Params().Len() > 0:
 					// pinned method, newcomer function
@@ -433,7 +442,10 @@ func (n *normalizer) renameBack() {
 			if fd == nil || fd.Body == nil {
 				continue
 			}
-			if n.convertKind(p, fn, fd, parts[2]) {
+			n.recvLast = trailing[fn]
+			converted := n.convertKind(p, fn, fd, parts[2])
+			n.recvLast = false
+			if converted {
 				n.notes = append(n.notes, fmt.Sprintf("normalise: %s is the pinned %s%s turned %s; analysed in its pinned form", short(fn.FullName()), map[bool]string{true: "function ", false: "method " + parts[1] + "."}[parts[1] == ""], parts[2], map[bool]string{true: "into a method", false: "into a function"}[parts[1] == ""]))
 			}
 		}
@@ -580,6 +592,18 @@ func (n *normalizer) convertKind(p *packages.Package, fn *types.Func, fd *ast.Fu
 			hdr += ", " + params
 		}
 		hdr += ")"
+		if n.recvLast {
+			if fd.Type.Params != nil && len(fd.Type.Params.List) > 0 {
+				if _, isV := fd.Type.Params.List[len(fd.Type.Params.List)-1].Type.(*ast.Ellipsis); isV {
+					return false
+				}
+			}
+			hdr = "func " + pinnedName + "("
+			if params != "" {
+				hdr += params + ", "
+			}
+			hdr += recv + ")"
+		}
 		eds = append(eds, ed{fd.Pos(), fd.Type.Params.End(), hdr})
 	} else {
 		if fd.Type.Params == nil || len(fd.Type.Params.List) == 0 || len(fd.Type.Params.List[0].Names) > 1 {
@@ -640,6 +664,17 @@ func (n *normalizer) convertKind(p *packages.Package, fn *types.Func, fd *ast.Fu
 				if len(call.Args) > 0 {
 					name, s, e := n.offsets(call.Lparen+1, call.Rparen)
 					args = ", " + strings.TrimSpace(string(n.src(name)[s:e]))
+				}
+				if n.recvLast {
+					if !isPureExpr(sel.X) {
+						return false // the receiver expression would be evaluated after the arguments
+					}
+					sep := ""
+					if args != "" {
+						sep = ", "
+					}
+					eds = append(eds, ed{call.Pos(), call.End(), pinnedName + "(" + strings.TrimPrefix(args, ", ") + sep + x + ")"})
+					continue
 				}
 				eds = append(eds, ed{call.Pos(), call.End(), pinnedName + "(" + x + args + ")"})
 			} else {
